@@ -64,7 +64,16 @@ func (b *expandBody) decodeSpec(blockS *hcl.BlockHeaderSchema, rawSpec *hcl.Bloc
 	//// for_each attribute
 
 	eachAttr := specContent.Attributes["for_each"]
-	eachVal, eachDiags := eachAttr.Expr.Value(b.forEachCtx)
+	// An expanded body can be shared between goroutines that each decode it
+	// with their own EvalContext, so we evaluate for_each in a fresh child
+	// of the context given to Expand rather than in that one shared context:
+	// expressions such as splats keep per-EvalContext temporary state and
+	// must not be evaluated concurrently in the same context.
+	eachCtx := b.forEachCtx
+	if eachCtx != nil {
+		eachCtx = eachCtx.NewChild()
+	}
+	eachVal, eachDiags := eachAttr.Expr.Value(eachCtx)
 	diags = append(diags, eachDiags...)
 	if diags.HasErrors() {
 		return nil, diags
